@@ -206,10 +206,52 @@ def run(ctx):
             H.show(cps[1]["recv"]).endswith(".add(%s)" % names[0][1])
         ctx.check(ok, R, "reserve_amortized::linearises-data", b["file"],
                   "data part 1 goes to [0,s1), part 2 to [s1,s1+s2) of the new block", observed=obs)
-        asg = {tuple(hq.self_fields(x["l"])): pv(x["r"]) for x in hq.find(b["body"], lambda x: x.get("k") == "Assign" and hq.self_fields(x["l"]))}
-        ok = asg.get(("head",)) == "0" and asg.get(("tail",)) == "(%s::data_slice_parts(self).0.1 + %s::data_slice_parts(self).1.1)" % (RB, RB) and \
-            asg.get(("cap",)) == s and ("buf",) in asg
-        ctx.check(ok, R, "reserve_amortized::positions", b["file"], "head = 0, tail = s1 + s2, cap = new capacity", observed={".".join(k): v for k, v in asg.items()})
+        all_asg = [(tuple(hq.self_fields(x["l"])), pv(x["r"])) for x in hq.find(b["body"], lambda x: x.get("k") == "Assign" and hq.self_fields(x["l"]))]
+        asg = dict(all_asg)
+        want_v = {("head",): "0", ("tail",): "(%s::data_slice_parts(self).0.1 + %s::data_slice_parts(self).1.1)" % (RB, RB), ("cap",): s}
+        ok = all(v == want_v[k] for k, v in all_asg if k in want_v) and {("head",), ("tail",), ("cap",), ("buf",)} <= set(asg)
+        ctx.check(ok, R, "reserve_amortized::positions", b["file"], "head = 0, tail = s1 + s2, cap = new capacity (every assignment)",
+                  observed=[(".".join(k), v) for k, v in all_asg])
+        # every way through the function: a path that installs a new capacity either starts from an empty buffer
+        # (cap == 0: nothing stored, head = tail = 0 already) or linearises the data (both copies, head and tail set);
+        # no other allocator call (realloc, ..) takes part — a growth path the region rules cannot type is reported
+        from .. import paths as P
+        bix = hq.Index(b)
+
+        def interesting(n):
+            if n.get("k") == "Assign" and hq.self_fields(n["l"]) and hq.self_fields(n["l"])[0] in ("head", "tail", "cap", "buf"):
+                return True
+            if n.get("k") == "MethodCall" and n["name"] == "copy_from_nonoverlapping":
+                return True
+            if n.get("k") == "Call" and H.strip_generics(H.callee(n) or "").startswith("alloc::alloc::"):
+                return True
+            return False
+        try:
+            pths = P.enumerate_paths(b["body"], interesting)
+        except P.Unsupported as e:
+            raise Anchor("reserve_amortized paths not enumerable: %s" % e)
+        bad = []
+        npth = 0
+        for pth in pths:
+            if pth.end in ("diverge", "error"):
+                continue
+            npth += 1
+            fields = [hq.self_fields(e["l"])[0] for e in pth.events if e.get("k") == "Assign"]
+            copies = [e for e in pth.events if e.get("k") == "MethodCall"]
+            allocs = sorted(H.strip_generics(H.callee(e) or "").split("::")[-1] for e in pth.events if e.get("k") == "Call")
+            empty = any(kind == "if" and not pos and bix.canon(node) == "(0 != self.cap)" for kind, node, pos in pth.conds) or \
+                any(kind == "if" and pos and bix.canon(node) == "(0 == self.cap)" for kind, node, pos in pth.conds)
+            if "cap" not in fields and "buf" not in fields:
+                okp = not fields and not copies and not allocs          # nothing happens
+            elif empty:
+                okp = sorted(fields) == ["buf", "cap"] and not copies and allocs == ["alloc"]
+            else:
+                okp = sorted(fields) == ["buf", "cap", "head", "tail"] and len(copies) == 2 and allocs == ["alloc", "dealloc"]
+            if not okp:
+                bad.append({"writes": fields, "copies": len(copies), "allocator": allocs, "empty-buffer-path": empty})
+        ctx.check(not bad and npth >= 2, R, "reserve_amortized::every-growth-path-relinearises", b["file"],
+                  "a path through reserve_amortized installs a new block without re-establishing head/tail by copying both data "
+                  "parts (or uses an allocator call the region rules do not model)", observed=bad or npth)
         # dealloc uses the old layout, after the copies
         de = hq.calls_to(b["body"], "dealloc")
         ok = len(de) == 1 and all(de[0]["sp"][0] > x["sp"][1] for x in cps) and "self.buf.as_ptr()" in H.show(de[0]["args"][0]) and \
